@@ -18,6 +18,7 @@ and math/big.
 -/
 import JsonV.Model.Basic
 import JsonV.Gen.Constants
+import JsonV.Model.WireDecode
 
 namespace JsonV.Model.Number
 open JsonV
@@ -431,6 +432,24 @@ def Fl.ofBits (ff : FloatFmt) (bits : Nat) : Fl :=
   if be == 2 ^ expBits - 1 then ⟨neg, true, 0, 0⟩
   else if be == 0 then ⟨neg, false, frac, ff.emin⟩
   else ⟨neg, false, 2 ^ (ff.p - 1) + frac, ff.emin + (be : Int) - 1⟩
+
+/-! ## (b') float unmarshaler of arshal_default.go (makeFloatArshaler), number and quoted-number arms -/
+
+/-- The `switch k` of makeFloatArshaler's unmarshal without the v1 legacy arm and without the `nonfinite` format
+("NaN"/"Infinity" strings).  `stringify` is `NeedObjectName() || StringifyNumbers|StringTag`; for `k = str`,
+`val` is the unquoted content, which must be consumed entirely by `jsonwire.ConsumeNumber`
+(`if n, err := jsonwire.ConsumeNumber(val); n != len(val) || err != nil { ErrSyntax }`).
+`pf` is `strconv.ParseFloat(·, bits)`; an overflow (±Inf) is ErrRange. -/
+def unmarshalFloatValue (pf : Bytes → Fl) (stringify : Bool) (k : VKind) (val : Bytes) : Stored Fl :=
+  let parse : Stored Fl := let fv := pf val; if fv.inf then .err .range else .set fv
+  match k with
+  | .null => .null
+  | .str =>
+    if !stringify then .err .mismatch
+    else if (Wire.consumeNumber val).1 != val.length || (Wire.consumeNumber val).2 != Wire.Err.ok then .err .syntax
+    else parse
+  | .num => if stringify then .err .mismatch else parse
+  | .other => .err .mismatch
 
 /-! ## (e) jsonwire.ReformatNumber (after ConsumeNumber succeeded on `src[:n]`) -/
 
